@@ -3,11 +3,11 @@ BASELINE_CMD = "cd /repo && go test -json -vet=off -count=1 -timeout 25m ./..."
 NOTES = ("All checks are static analyses of /repo's working tree in the purego build configuration; nothing from bron-crypto is executed. "
          "Every claim is at level 'other': it decides the named structural clauses (necessary conditions) of the property for all inputs/schedules, "
          "not the arithmetic behaviour. Genuine defects that are recorded rather than repaired are listed in known-findings.txt; "
-         "repaired ones are the 'fix:' commits in /repo, listed there as 'fixed:'. thorough = quick + in-memory overlay mutants (checker sensitivity self-test).")
+         "repaired ones are the 'fix:' commits in /repo, listed there as 'fixed:'. thorough = quick + in-memory overlays: catalogued mutants and stored seeded changes (must be reported), benign rewrites and stored behaviour-preserving refactorings (must stay silent).")
 NOTE_COMMON = ("Trusted base: go/packages+go/types+go/cfg of x/tools v0.50.0 under go1.26.8; the purego build configuration; "
                "frozen reference inventories under checker/ref (produced by `bcv emit` from the reviewed tree). cgo-only files are not analysed. "
                "Decides structural clauses only; arithmetic correctness of the guarded computations is out of reach of static analysis and not claimed. "
-               "A behaviour-preserving refactor that changes which callee performs a check or reshapes a condition needs the reference to be re-emitted after review.")
+               "Renames, moved / extracted / inlined private helpers, cached operands, inverted or merged conditions and loop forms are tolerated by construction; a restructuring the rules cannot see through (a loop replaced by a closure-taking stdlib helper, symmetric branches merged, A&&B rewritten as a switch; DESIGN section 10 lists the classes) is reported and needs the reference to be re-emitted after review.")
 
 NOT_APPLICABLE = {
  "C01": "honest-run signature validity is an arithmetic identity over runtime field/group values; no static rule can bound it (its enforcement points are decided under C04/C11)",
@@ -16,13 +16,13 @@ NOT_APPLICABLE = {
  "C20": "exactness of interpolation and Gaussian elimination (and 'fails only when no solution exists') is a statement about ranks and field values",
 }
 
-claim("C02", "guard + branch-condition inventory (go/cfg dominance), operand-immutability lint",
+claim("C02", "guard inventory (go/cfg dominance) + constant-comparison and call inventories, operand-immutability lint",
       "Decides that every qualification/shape/constraint guard of the access structures, MSP and sharing schemes is still effective, on the same paths and fed by the same operands; that branch bounds (thresholds, level ordering) are unchanged; that share combinators do not mutate their operands. Holds for all inputs because it is a property of the program text. Does not decide rank computations, privacy, or the value an algorithm computes.",
       NOTE_COMMON, "§5 C02")
 claim("C04", "guard inventory + blame-tag dataflow + validate-before-use + store-guard dominance + transcript-op order",
       "Decides for all protocol packages that every verification step guarding a round/aggregate output is present, effective, MUST where it was MUST, fed by the same operands and blaming the same sender-derived sharing.ID; that peer messages are validated before any other read; that state is stored only behind the checks that validated it; that blame errors are fresh objects; that commitment inputs cover all fields; that Fiat-Shamir operations keep their order. Does not decide sufficiency of the check set, termination, or honest-run arithmetic.",
       NOTE_COMMON, "§5 C04")
-claim("C05", "guard + branch-condition inventory, operand-immutability lint",
+claim("C05", "guard + constant-comparison + call inventory, operand-immutability lint",
       "Decides presence/effectiveness/operands of the Feldman/Pedersen verification equality, the dimension guards (incl. mat.LeftAction) and the NewBaseShard consistency guard, and that share/verification-vector combinators never write into their operands. Does not decide the arithmetic of the verification equation.",
       NOTE_COMMON, "§5 C05")
 claim("C06", "guard inventory with phi operand shapes + store-guard dominance",
@@ -46,21 +46,21 @@ claim("C11", "lockset dataflow + wake-up pairing + routing-key provenance",
 claim("C12", "constant evaluation of decoder options + nil-flow in decoders + guard inventory",
       "Decides that the strict CBOR mode is what it says, that nothing bypasses it, that decoders cannot nil-dereference what they decoded (67 known findings for CBOR null; absent-field panics repaired by fix: commits), that every decoder keeps its validating constructor/check, and that writers and readers agree on DTO types and tags. Does not decide value-level round-trip equality.",
       NOTE_COMMON, "§5 C12")
-claim("C13", "guard + branch-condition inventory",
+claim("C13", "guard + constant-comparison + call inventory",
       "Decides that every point/scalar decoder and affine constructor keeps its on-curve setter check, length, flag and subgroup guards with the same bounds (G1.FromAffineX repaired by a fix: commit). Does not decide injectivity/round trip.",
       NOTE_COMMON, "§5 C13")
-claim("C15", "guard + branch-condition inventory, selector-disjointness lint",
+claim("C15", "guard + constant-comparison + call inventory, selector-disjointness lint",
       "Rejection clauses only: BLS identity/subgroup/pairing guards, ECDSA recovery-id/low-S/native verification guards, Schnorr/Mina equality and canonical-encoding guards are present and effective; domain-separation tags handed out by different selectors are disjoint. Does not decide acceptance of honest signatures or agreement with vectors.",
       NOTE_COMMON, "§5 C15")
-claim("C16", "guard + branch-condition inventory",
+claim("C16", "guard + constant-comparison + call inventory",
       "Only the structural mechanisms: ciphertext/plaintext/nonce group-membership guards and key-size floors of Paillier/ElGamal and of the znstar groups are present, effective and have the same bounds. Does not decide exactness of homomorphisms or CRT path = public path.",
       NOTE_COMMON, "§5 C16")
-claim("C17", "ok-flag lint + guard/branch-condition inventory",
+claim("C17", "ok-flag lint + guard / constant-comparison inventory",
       "Discipline only: no success flag of a fallible big-number/field primitive is dropped, and the error-returning APIs keep their failure guards and bounds. Does not decide any numerical result.",
       NOTE_COMMON, "§5 C17")
-claim("C18", "guard + branch-condition inventory + hash-op order",
+claim("C18", "guard + constant-comparison inventory + hash-op order + in-module call inventory",
       "Decides that every Open reaches an effective equality between recomputed and presented commitment, that key constructors and the encryption/znstar validation they rely on keep their guards and bounds, and that hash absorption order is kept. Does not decide hiding/binding or homomorphism laws.",
       NOTE_COMMON, "§5 C18")
-claim("C19", "sponge-operation order + guard/branch-condition inventory",
+claim("C19", "sponge-operation order + guard / constant-comparison / call inventory",
       "Decides that Hagrid absorbs tag, 64-bit lengths, message count and data in the frozen order, that extraction forks after the requested length was absorbed and ratchets the live state, that the Append helper frames each value, and that RFC 9380 expander bounds are unchanged. Does not decide agreement with RFC vectors or subgroup membership of hash-to-curve outputs.",
       NOTE_COMMON, "§5 C19")
